@@ -1,6 +1,8 @@
 import WfProofs.ReplayResume
 import WfModel.GenReplay
 import WfProofs.TickStream
+import WfProofs.ReplayPrefix
+import WfProofs.TickTableLog
 /-!
 # C13 — a server restart at any persisted point resumes without losing work
 
@@ -879,4 +881,277 @@ example :
        { hid := 5, wf := 1, status := .running, runId := some 5, idle := false },
        { hid := 6, wf := 1, status := .running, runId := none, idle := false }] =
     [(1, .restart 5), (2, .notSelected), (3, .notSelected), (4, .notSelected), (5, .alreadyActive), (6, .noRunId)] := by
+  decide
+
+/-! ## every prefix of every persisted log
+
+The theorems above quantify over schedules (`acts`): "the process stops after this schedule".  The
+property quantifies over *prefixes of the persisted log*.  The two coincide: the runner persists at
+most one tick per action and never rewrites the log. -/
+
+/-- **C13 (the stop points are all the log prefixes)**: for every run and every `k` up to the length
+of its persisted log, the first `k` persisted ticks are the *whole* persisted log of the same run
+stopped after some prefix of its schedule — nothing in between two persisted ticks is a different log,
+and there is no prefix of the log at which the process could not have stopped. -/
+theorem C13_every_log_prefix_is_a_stop_point (cfg : Cfg) (pol : Policy) (now : Int) (e : Ev) (timeout : Option Nat)
+    (acts : List Act) (k : Nat) (hk : k ≤ (persistedTicks (C13.live cfg pol now e timeout acts).log).length) :
+    ∃ n, n ≤ acts.length ∧
+      persistedTicks (C13.live cfg pol now e timeout (acts.take n)).log =
+        (persistedTicks (C13.live cfg pol now e timeout acts).log).take k ∧
+      ticksOf (C13.live cfg pol now e timeout (acts.take n)).log =
+        (ticksOf (C13.live cfg pol now e timeout acts).log).take k := by
+  have hf := init_fresh cfg now e timeout
+  simp only at hf
+  have hk' : k ≤ (C13.live cfg pol now e timeout acts).log.length := by
+    simpa [persistedTicks] using hk
+  obtain ⟨n, hn, h⟩ := c13_log_prefix_is_stop_point cfg pol acts (Runner.init cfg initState now (some e) timeout) k
+    (by rw [hf.2.1]; exact Nat.zero_le _) hk'
+  refine ⟨n, hn, ?_, ?_⟩
+  · unfold persistedTicks C13.live; rw [h, List.map_take]
+  · unfold ticksOf C13.live; rw [h, List.map_take]
+
+/-- **C13 (replay at every prefix of every persisted log)**: cut the persisted log of any run anywhere;
+replaying the first `k` ticks never raises and rebuilds — up to first-attempt times — the reducer state
+the live run had at the stop point whose log this is, with that stop point's exit command. -/
+theorem C13_replay_every_log_prefix (cfg : Cfg) (pol : Policy) (hpol : TimeFree pol) (now : Int) (e : Ev)
+    (timeout : Option Nat) (acts : List Act) (now0 : Int) (clk : Nat → Int)
+    (hlog : C13.WellFormedLog (C13.live cfg pol now e timeout acts))
+    (hreq : C13.NoRequirements (C13.live cfg pol now e timeout acts))
+    (k : Nat) (hk : k ≤ (persistedTicks (C13.live cfg pol now e timeout acts).log).length) :
+    ∃ n rep, n ≤ acts.length ∧
+      ticksOf (C13.live cfg pol now e timeout (acts.take n)).log = (ticksOf (C13.live cfg pol now e timeout acts).log).take k ∧
+      replayTicks cfg pol initState now0 clk ((persistedTicks (C13.live cfg pol now e timeout acts).log).take k) = some rep ∧
+      SimSt rep.st (C13.live cfg pol now e timeout (acts.take n)).st ∧
+      SimSt (roundtrip cfg rep.st) (roundtrip cfg (C13.live cfg pol now e timeout (acts.take n)).st) ∧
+      ExitRel rep.exit (C13.live cfg pol now e timeout (acts.take n)).outcome := by
+  obtain ⟨n, hn, hp, ht⟩ := C13_every_log_prefix_is_a_stop_point cfg pol now e timeout acts k hk
+  have hlog' : C13.WellFormedLog (C13.live cfg pol now e timeout (acts.take n)) := by
+    intro t htm; rw [ht] at htm; exact hlog t (List.mem_of_mem_take htm)
+  have hreq' : C13.NoRequirements (C13.live cfg pol now e timeout (acts.take n)) := by
+    intro t htm; rw [ht] at htm; exact hreq t (List.mem_of_mem_take htm)
+  obtain ⟨rep, h1, h2, h3, h4⟩ := C13_replay_reproduces_state cfg pol hpol now e timeout (acts.take n) now0 clk hlog' hreq'
+  rw [hp] at h1
+  exact ⟨n, rep, hn, ht, h1, h2, h3, h4⟩
+
+/-- non-vacuity: the F12 run's log has 2 ticks; its prefix of length 1 is the log of the run stopped
+after its first action, and a `drain` never persists more than one tick -/
+example :
+    (persistedTicks (C13.live C13.cfg2 C13.pol0 0 C13.startEv none C13.actsF12).log).length = 2 ∧
+    persistedTicks (C13.live C13.cfg2 C13.pol0 0 C13.startEv none (C13.actsF12.take 1)).log =
+      (persistedTicks (C13.live C13.cfg2 C13.pol0 0 C13.startEv none C13.actsF12).log).take 1 := by
+  decide
+
+/-! ## arbitrary logs: replay is prefix-closed and "last wins" never forgets -/
+
+/-- **C13 (any log, any cut)**: for *every* tick list — whether or not a fresh run wrote it (logs that
+span a resume, truncated or foreign logs included) — and every cut `a ++ b`: if replaying the whole
+log succeeds, replaying the prefix `a` succeeds, the whole replay is the continuation of that one over
+`b` (so a restart after `a` and a later one after `a ++ b` agree on `a`); an exit command the prefix
+ended in is never forgotten by a longer log; and `ReplayResult.exit_command` only ever holds one of the
+three exit commands — the precondition of `handler_status_from_exit_command`, which maps every such
+command to a final status except the idle release. -/
+theorem C13_replay_prefix_closed_exit_kept (cfg : Cfg) (pol : Policy) (st0 : State) (now0 : Int) (clk : Nat → Int)
+    (a b : List Tick) (rep' : Replayed) (h : replayTicks cfg pol st0 now0 clk (a ++ b) = some rep') :
+    ∃ rep, replayTicks cfg pol st0 now0 clk a = some rep ∧
+      replayFrom cfg pol clk a.length rep b = some rep' ∧
+      (rep.exit.isSome = true → rep'.exit.isSome = true) ∧
+      (∀ c, rep'.exit = some c → c.isExit = true ∧
+        (statusOfExit c = none ↔ c = .completeRun .idleReleased)) := by
+  obtain ⟨rep, h1, h2, h3, _, h5⟩ := c13_replayTicks_append cfg pol st0 now0 clk a b rep' h
+  refine ⟨rep, h1, h2, h3, ?_⟩
+  intro c hc
+  have hx := h5 c hc
+  refine ⟨hx, ?_⟩
+  cases c with
+  | halt k => cases k <;> simp [statusOfExit]
+  | completeRun p => cases p <;> simp [statusOfExit]
+  | failWorkflow s x => simp [statusOfExit]
+  | _ => simp [Cmd.isExit] at hx
+
+/-- the contrapositive, as `_on_server_start` uses it: a log whose replay raises has no replayable
+extension — a handler marked failed for its log would be marked failed for every longer log too -/
+theorem C13_unreplayable_prefix_stays_unreplayable (cfg : Cfg) (pol : Policy) (st0 : State) (now0 : Int) (clk : Nat → Int)
+    (a b : List Tick) (h : replayTicks cfg pol st0 now0 clk a = none) :
+    replayTicks cfg pol st0 now0 clk (a ++ b) = none := by
+  cases hr : replayTicks cfg pol st0 now0 clk (a ++ b) with
+  | none => rfl
+  | some rep' =>
+    obtain ⟨rep, h1, _⟩ := c13_replayTicks_append cfg pol st0 now0 clk a b rep' hr
+    rw [h] at h1; cases h1
+
+/-- non-vacuity: the completed run's log cut after its first tick: the prefix has no exit command, the
+whole log has; and the second-restart witness' log is unreplayable together with every extension -/
+example :
+    (match replayTicks C13.cfg2 C13.pol0 initState 7 (fun _ => 7)
+        ((ticksOf (C13.live C13.cfg2 C13.pol0 0 C13.startEv none
+          [.drain, .workerDone 0 0 [.result (some { ty := 1, kind := .stop, uid := 7 })], .drain]).log).take 1) with
+      | some rep => rep.exit.isSome | none => true) = false ∧
+    (match replayTicks C13.cfg2 C13.pol0 initState 7 (fun _ => 7)
+        (ticksOf (C13.live C13.cfg2 C13.pol0 0 C13.startEv none
+          [.drain, .workerDone 0 0 [.result (some { ty := 1, kind := .stop, uid := 7 })], .drain]).log) with
+      | some rep => rep.exit.isSome | none => false) = true ∧
+    (replayTicks C13.cfg3 C13.pol0 initState 7 (fun _ => 7)
+        (persistedTicks (C13.live C13.cfg3 C13.pol0 0 C13.startEv none C13.acts3a).log ++
+          persistedTicks (Runner.run C13.cfg3 C13.pol0 C13.R1 C13.acts3b).log)).isNone = true := by
+  decide
+
+/-! ## the other ways `_on_server_start` can go: nobody overlooked, no state, legacy context -/
+
+/-- **C13 (selection is complete)**: the converse of `C13_start_picks`: every row that is `running`, of
+a registered workflow, not idle, with a run id whose run is not active when the server starts has its
+run restarted — by this row or by an earlier row of the same run; with `C13_restart_at_most_once`:
+exactly once when the restart resumes it. -/
+theorem C13_start_picks_complete (registered : List Nat) (resumes : Nat → Bool) (hs : List HandlerRow) (active : List Nat)
+    (h : HandlerRow) (r : Nat) (hm : h ∈ hs) (hst : h.status = .running) (hwf : registered.contains h.wf = true)
+    (hidle : h.idle = false) (hrun : h.runId = some r) (hact : active.contains r = false) :
+    ∃ p ∈ pickHandlers registered resumes active hs, p.2 = .restart r := by
+  have hwf' : h.wf ∈ registered := by simpa using hwf
+  have hq : startQuery registered h = true := by simp [startQuery, hst, hwf', hidle]
+  exact c13_pick_complete registered resumes r hs active h hm hq hrun hact
+
+/-- non-vacuity: in the table of the selection example, run 5 is restarted although its second row is not -/
+example : ∃ p ∈ pickHandlers [1] (fun r => r == 5) []
+      [{ hid := 1, wf := 1, status := .running, runId := some 5, idle := false },
+       { hid := 5, wf := 1, status := .running, runId := some 5, idle := false }], p.2 = .restart 5 :=
+  C13_start_picks_complete [1] _ _ [] { hid := 5, wf := 1, status := .running, runId := some 5, idle := false } 5
+    (by simp) rfl (by decide) rfl rfl (by decide)
+
+/-- **C13 (nothing persisted)**: a selected handler with no persisted tick and no legacy context is
+marked failed ("crashed before persisting any state; cannot resume") and nothing is started — and that
+is the only way to get this verdict: with at least one persisted tick, or a legacy context, the
+restart never reports "no state". -/
+theorem C13_no_state_marked_failed (cfg : Cfg) (pol : Policy) (now0 : Int) (clk : Nat → Int) (nowR : Int)
+    (mkStart : Option Ev) (timeout : Option Nat) :
+    restartRun cfg pol none [] now0 clk nowR mkStart timeout = .markFailed .noState ∧
+    ∀ (legacy : Option State) (ticks : List Tick),
+      restartRun cfg pol legacy ticks now0 clk nowR mkStart timeout = .markFailed .noState → ticks = [] ∧ legacy = none := by
+  refine ⟨rfl, ?_⟩
+  intro legacy ticks h
+  cases ticks with
+  | nil =>
+    cases legacy with
+    | none => exact ⟨rfl, rfl⟩
+    | some s =>
+      simp only [restartRun, contextFromTicks] at h
+      split at h
+      · cases h
+      · split at h
+        · cases h
+        · split at h <;> cases h
+  | cons t ts =>
+    simp only [restartRun, contextFromTicks] at h
+    split at h
+    · rename_i hc
+      split at hc <;> cases hc
+    · cases h
+    · split at h
+      · cases h
+      · split at h
+        · cases h
+        · split at h <;> cases h
+
+/-- **C13 (legacy context, no ticks yet)**: a run that has only a legacy serialised context (written
+by an older server; `BrokerState.from_serialized`) and is running is resumed from it, not failed and
+not started afresh, and the resumed runner keeps all of that state (`StateKept`). -/
+theorem C13_legacy_ctx_resumed (cfg : Cfg) (hwf : cfg.WF) (pol : Policy) (s : State) (hrun : s.isRunning = true)
+    (now0 : Int) (clk : Nat → Int) (nowR : Int) (mkStart : Option Ev) (timeout : Option Nat) :
+    restartRun cfg pol (some s) [] now0 clk nowR mkStart timeout = .resume (Runner.init cfg (roundtrip cfg s) nowR none timeout) ∧
+    C13.StateKept cfg s (Runner.init cfg (roundtrip cfg s) nowR none timeout) := by
+  have hS : (roundtrip cfg s).isRunning = true := by simpa [roundtrip, deser, ser] using hrun
+  refine ⟨?_, C13.stateKept_of_shape cfg hwf s nowR timeout _ (init_resumed cfg _ nowR timeout)⟩
+  simp only [restartRun, contextFromTicks, Option.bind_none, hS, if_true]
+
+/-- non-vacuity: the state of the fan-out run stopped mid-way, handed over as a legacy context -/
+example :
+    (C13.live C13.cfg2 C13.pol0 0 C13.startEv none C13.actsQ).st.isRunning = true ∧
+    (match restartRun C13.cfg2 C13.pol0 (some (C13.live C13.cfg2 C13.pol0 0 C13.startEv none C13.actsQ).st) [] 7 (fun _ => 7) 9 none none with
+      | .resume R => (R.running.map (·.ev.uid), (R.st.workers 2).queue.map (·.ev.uid))
+      | _ => ([], [])) = ([10], [9]) := by
+  decide
+
+/-! ## writing the log: the `ticks` table is the append log -/
+
+/-- **C13 (the stored log is what was appended)**: for every history of `append_tick(run, data)` calls,
+runs interleaved in any way, on an empty sqlite store (`COALESCE(MAX(sequence) of the run, c) + i` with
+the `c`, `i` of the current source) and on an empty memory store (`existing[-1].sequence + i if existing
+else f`): each run's rows carry exactly the data appended for it, in call order, under the sequences
+`0, 1, …, n-1`; `ORDER BY sequence` is insertion order, so `get_ticks` of both stores is that log and the
+two stores agree row by row; and the sequence column meets the hypothesis of `C13_stream_ticks_complete`,
+so the paginated `stream_ticks` yields every one of them once, in order. -/
+theorem C13_tick_table_is_the_append_log (h : List (Nat × Nat)) (run : Nat) :
+    let ts := TickTable.sqlRun GenReplay.sqlAppendCoalesce GenReplay.sqlAppendInc [] h
+    let tm := TickTable.memRun GenReplay.memAppendFirst GenReplay.memAppendInc [] h
+    (TickTable.sqlGetTicks ts run).map (·.data) = TickTable.appended h run ∧
+    (TickTable.memGetTicks tm run).map (·.data) = TickTable.appended h run ∧
+    (TickTable.sqlGetTicks ts run).map (·.seq) = List.range (TickTable.appended h run).length ∧
+    TickTable.sqlGetTicks ts run = TickTable.memGetTicks tm run ∧
+    TickStream.streamTicks GenReplay.tickPageSize ((TickTable.sqlGetTicks ts run).map (·.seq)) =
+      (TickTable.sqlGetTicks ts run).map (·.seq) := by
+  intro ts tm
+  have hc : GenReplay.sqlAppendCoalesce = -1 := by decide
+  have hi : GenReplay.sqlAppendInc = 1 := by decide
+  have hf : GenReplay.memAppendFirst = 0 := by decide
+  have hm : GenReplay.memAppendInc = 1 := by decide
+  have es := TickTable.table_is_log (TickTable.sqlNextSeq (-1) 1) TickTable.sqlNextSeq_inv h run
+  have em := TickTable.table_is_log (TickTable.memNextSeq 0 1) TickTable.memNextSeq_inv h run
+  have hts : ts = TickTable.runWith (TickTable.sqlNextSeq (-1) 1) [] h := by
+    show TickTable.sqlRun _ _ [] h = _; rw [hc, hi]; rfl
+  have htm : tm = TickTable.runWith (TickTable.memNextSeq 0 1) [] h := by
+    show TickTable.memRun _ _ [] h = _; rw [hf, hm]; rfl
+  have hrows : ∀ (x y : List TickTable.Row), x.map (·.data) = y.map (·.data) → x.map (·.seq) = y.map (·.seq) →
+      x.map (·.run) = y.map (·.run) → x = y := by
+    intro x
+    induction x with
+    | nil => intro y h1 _ _; cases y with | nil => rfl | cons _ _ => simp at h1
+    | cons a x ih =>
+      intro y h1 h2 h3
+      cases y with
+      | nil => simp at h1
+      | cons b y =>
+        simp only [List.map_cons, List.cons.injEq] at h1 h2 h3
+        have : a = b := by
+          cases a; cases b; simp only at h1 h2 h3; simp [h1.1, h2.1, h3.1]
+        rw [this, ih y h1.2 h2.2 h3.2]
+  have hruncol : ∀ t : TickTable.Table, (TickTable.ofRun t run).map (·.run) = List.replicate (TickTable.ofRun t run).length run := by
+    intro t
+    apply List.eq_replicate_iff.mpr
+    refine ⟨by simp, ?_⟩
+    intro b hb
+    simp only [List.mem_map] at hb
+    obtain ⟨row, hrow, rfl⟩ := hb
+    simp only [TickTable.ofRun, List.mem_filter, beq_iff_eq] at hrow
+    exact hrow.2
+  unfold TickTable.sqlGetTicks TickTable.memGetTicks
+  rw [hts, htm, es.2.2]
+  have hlen : (TickTable.ofRun (TickTable.runWith (TickTable.sqlNextSeq (-1) 1) [] h) run).length =
+      (TickTable.ofRun (TickTable.runWith (TickTable.memNextSeq 0 1) [] h) run).length := by
+    have a := congrArg List.length es.1
+    have b := congrArg List.length em.1
+    simp only [List.length_map] at a b
+    omega
+  refine ⟨es.1, em.1, es.2.1, ?_, ?_⟩
+  · apply hrows _ _ (es.1.trans em.1.symm) (es.2.1.trans em.2.1.symm)
+    rw [hruncol, hruncol, hlen]
+  · rw [es.2.1]
+    exact (C13_stream_ticks_complete _ List.pairwise_lt_range).1
+
+/-- what `WfModel/TickTable.lean` assumes of the two stores, re-extracted on every run: the sqlite
+`append_tick` is one `INSERT … COALESCE((SELECT MAX(sequence) FROM ticks WHERE run_id = ?), -1) + 1` with
+the run id bound to the row and to the sub-select; its `get_ticks` is `WHERE run_id = ? ORDER BY sequence`;
+the memory store numbers from 0 by `existing[-1].sequence + 1`, appends at the end of the run's own list
+and `get_ticks` is that list. -/
+theorem C13_tick_append_shape :
+    GenReplay.sqlAppendCoalesce = -1 ∧ GenReplay.sqlAppendInc = 1 ∧ GenReplay.sqlAppendMaxIsPerRun = true ∧
+    GenReplay.sqlGetTicksOrdered = true ∧ GenReplay.memAppendFirst = 0 ∧ GenReplay.memAppendInc = 1 ∧
+    GenReplay.memAppendAtEndOfRunList = true ∧ GenReplay.memGetTicksIsRunList = true := by
+  decide
+
+/-- non-vacuity: two runs interleaved; run 7 gets 0,1,2 and run 8 gets 0,1 in both stores; a store whose
+first sequence were 1 (`COALESCE(…, 0) + 1`) would disagree with the memory store -/
+example :
+    TickTable.sqlGetTicks (TickTable.sqlRun (-1) 1 [] [(7, 100), (8, 200), (7, 101), (8, 201), (7, 102)]) 7 =
+      [⟨7, 0, 100⟩, ⟨7, 1, 101⟩, ⟨7, 2, 102⟩] ∧
+    TickTable.memGetTicks (TickTable.memRun 0 1 [] [(7, 100), (8, 200), (7, 101), (8, 201), (7, 102)]) 8 =
+      [⟨8, 0, 200⟩, ⟨8, 1, 201⟩] ∧
+    TickTable.sqlGetTicks (TickTable.sqlRun 0 1 [] [(7, 100), (7, 101)]) 7 = [⟨7, 1, 100⟩, ⟨7, 2, 101⟩] := by
   decide
